@@ -74,8 +74,8 @@ PROPS = {
         level="translation_validation",
         rule="three differentials. (a) source: every instantiation command of the Makefile (12 genny lines, 8 join lines) is re-executed in the harness (AST substitution of ObjectType in types/gen/template.go; the text/template literal extracted from join/gen/main.go) and compared declaration by declaration, structurally on the go/ast, with the committed generated*.go. (b) behaviour: rapid scenarios (tree of all attach kinds + monitors, refilters, closes, server traffic of the package's type plus foreign-typed objects, typed or raw list results) run side by side on <type>.BuildController (through generated adapters) and on kcache.NewController; each world is checked against the reference model after every operation and the two are compared node by node per step (events as multisets restricted to the type, readiness, lifecycle, monitor callbacks). (c) requests: all 12 typed clients x {all namespaces, one namespace} plus rapid namespaces/resourceVersions against a loopback API server; method, path and query of List and Watch are compared with a table written from the Kubernetes API conventions and the List response must decode into the type's list. Non-trivial (behaviour) = scenario with a filtered clone, a refilter and a foreign-typed object; source and request cases all count; distinct = (type, scenario hash) / instantiation / (type, namespace, rv).",
         assumptions=["foreign-typed objects never share a namespace/name with an object of the type (one collection holds one type)", "a typed monitor may surface a foreign-typed event as no callback or as a callback with nil; a non-nil object of the wrong type or a panic is a violation", "cluster-scoped nodes are only requested with the empty namespace"],
-        quick=[J("TestC20_Source"), J("TestC20_RequestsAll"), J("TestC20_Requests", checks=150), J("TestC20_Behaviour", checks=250, shards=6), J("TestC20_TypedSubscription", checks=3000, shards=2)],
-        thorough=[J("TestC20_Source"), J("TestC20_RequestsAll"), J("TestC20_Requests", checks=3000, shards=2), J("TestC20_Behaviour", checks=12000, shards=12, timeout=2400), J("TestC20_TypedSubscription", checks=60000, shards=8)],
+        quick=[J("TestC20_Source"), J("TestC20_RequestsAll"), J("TestC20_Requests", checks=150), J("TestC20_Behaviour", checks=250, shards=6), J("TestC20_TypedSubscription", checks=3000, shards=2), J("TestC20_Handlers")],
+        thorough=[J("TestC20_Source"), J("TestC20_RequestsAll"), J("TestC20_Requests", checks=3000, shards=2), J("TestC20_Behaviour", checks=12000, shards=12, timeout=2400), J("TestC20_TypedSubscription", checks=60000, shards=8), J("TestC20_Handlers")],
     ),
     "C09": dict(
         level="exploration",
